@@ -154,6 +154,13 @@ let () =
             let o2 = Model.loadDesc_rowrep p d in
             Printf.sprintf "valid_in=%s valid_out=%s drows=%s, dcols=%s, rowrep_same=%s idem=%s" (b (Model.isDescValid p d))
               (b (Model.isDescValid p o)) (str_ds o.Model.d_rows) (str_ds o.Model.d_cols) (b (o = o2)) (b (Model.loadDesc p o = o))
+          | "removed", [which; r; c; mask] ->
+            (* SPxBasisBase::removedRows / removedCols: descriptor before, mask of removed entries (1 = removed) *)
+            let d = { Model.d_rows = dsl r; Model.d_cols = dsl c } in
+            let mk = List.map (fun ch -> ch = '1') (List.init (String.length mask) (String.get mask)) in
+            (match (if which = "rows" then Model.removed_rows d mk else Model.removed_cols d mk) with
+             | None -> "dropped"
+             | Some o -> Printf.sprintf "kept drows=%s, dcols=%s," (str_ds o.Model.d_rows) (str_ds o.Model.d_cols))
           | "descvalid", [r; c] ->
             let d = { Model.d_rows = dsl r; Model.d_cols = dsl c } in
             Printf.sprintf "valid=%s freeok=%s" (b (Model.isDescValid p d)) (b (Model.free_ok p d))
